@@ -16,8 +16,8 @@ META = dict(
                "to /repo on every run: generated batches (reads, writes, failing queries, result references, all 18 query kinds) are sent to a real "
                "server through exec / exec_mut by owner, writer, db admin and server admin; results, status, database dump and audit endpoint after each "
                "batch are compared with the extracted model and checked directly (failed batch => dump and audit unchanged; successful batch => audit "
-               "grows by exactly its mutating queries). Two recorded findings: the inherited rollback defect of C13 (value overwrite) and the audit "
-               "write failing after an ownership transfer.",
+               "grows by exactly its mutating queries). The required_role / t_exec / t_exec_mut query-kind lists are re-read from the source on every run and compared with the model's table. Defects found and repaired in /repo: the inherited rollback defect of C13 (value overwrite), the audit write failing after an ownership transfer; "
+               "open finding: convert reopening an open database.",
     design_ref="DESIGN.md §5 C25",
     level_note="Trusted: Coq kernel, extraction, OCaml driver, Rust harness and canonical printers, agdb_api client. The database content is modelled for a "
                "query family (insert node with one value, set/remove/select value by id or `:n`, count, search, one fixed instance of each other query kind); "
